@@ -21,6 +21,9 @@ pub struct IoPlan {
     /// writer only: flush() fails
     #[serde(default)]
     pub flush_error: bool,
+    /// writer only: the hard error fires once (the call that reaches the offset fails), later calls succeed again
+    #[serde(default)]
+    pub hard_error_transient: bool,
 }
 
 impl IoPlan {
@@ -71,12 +74,15 @@ impl io::Write for SimWriter {
             n = n.min(self.plan.max_chunk[(idx as usize) % self.plan.max_chunk.len()].max(1));
         }
         if let Some(k) = self.plan.hard_error_at {
-            let room = k.saturating_sub(self.data.len() as u64) as usize;
-            if room == 0 {
-                self.stats.hard_errors += 1;
-                return Err(io::Error::new(io::ErrorKind::Other, "simulated ENOSPC"));
+            let spent = self.plan.hard_error_transient && self.stats.hard_errors > 0;
+            if !spent {
+                let room = k.saturating_sub(self.data.len() as u64) as usize;
+                if room == 0 {
+                    self.stats.hard_errors += 1;
+                    return Err(io::Error::new(io::ErrorKind::Other, "simulated ENOSPC"));
+                }
+                n = n.min(room);
             }
-            n = n.min(room);
         }
         if n < buf.len() {
             self.stats.short += 1;
